@@ -749,6 +749,14 @@ impl World {
             b.height += 1;
         });
     }
+    /// next block `dt` whole seconds later plus `nanos` nanoseconds (block times are not aligned to
+    /// whole seconds on a real chain)
+    pub fn next_block_ns(&mut self, dt: u64, nanos: u64) {
+        self.app.update_block(|b| {
+            b.time = b.time.plus_seconds(dt).plus_nanos(nanos);
+            b.height += 1;
+        });
+    }
     pub fn advance_time(&mut self, dt: u64) {
         self.app.update_block(|b| {
             b.time = b.time.plus_seconds(dt);
